@@ -300,23 +300,30 @@ def check_modifiers(ctx):
         ctx.holds(rule, dy, '[(move name, Move(self.move_arg, self.reference, self.is_alignment)), (name, self)]', 'the move runs right before its field, on both paths', dy.node.lineno, clause='a')
     else:
         ctx.violation(rule, dy, '_describe_yourself', 'no Move pseudo-field is ever inserted', dy.node.lineno, clause='a')
-    # class-wide align
-    okal = False
-    for n in ast.walk(dy.node):
-        if isinstance(n, ast.If):
-            lits = sorted(canon(c) for c in conj(n.test))
-            if lits == ["('align' in bisturi_conf)", '(self.move_arg is None)']:
-                calls = [c for s in n.body for c in ast.walk(s) if isinstance(c, ast.Call) and canon(c.func) == 'self.aligned']
-                if calls:
-                    c = calls[0]
-                    arg = c.args[0] if c.args else (c.keywords[0].value if c.keywords else None)
-                    extra = [k for k in c.keywords if k.arg == 'reference']
-                    if arg is not None and canon(arg) == "bisturi_conf['align']" and not extra and len(c.args) <= 1:
-                        okal = True
-    if okal:
-        ctx.holds(rule, dy, "if self.move_arg is None and 'align' in bisturi_conf: self.aligned(to=bisturi_conf['align'])", 'class-wide align only for fields without their own move, absolute reference', dy.node.lineno, clause='a')
+    # class-wide align: decided on the paths of _describe_yourself with one level of helpers expanded
+    found = wrong = None
+    for p in repo.walker(inline_depth=1, max_paths=ctx.max_paths, keep={'aligned', 'at', 'shift'}).paths(dy.node, cls=repo.cls('Field')):
+        if p.raises():
+            continue
+        from ..model import path_facts
+        facts = set(p.guard_texts()) | set(path_facts(p))
+        for e in p.effects:
+            if e.kind == 'call' and canon(e.call.func) == 'self.aligned':
+                c = e.call
+                arg = c.args[0] if c.args else next((k.value for k in c.keywords if k.arg == 'to'), None)
+                extra = [k for k in c.keywords if k.arg == 'reference'] or len(c.args) > 1
+                from_conf = arg is not None and canon(arg) in ("bisturi_conf['align']",) or (isinstance(arg, ast.Call) and canon(arg.func) == 'bisturi_conf.get' and arg.args and canon(arg.args[0]) == "'align'")
+                own_move = '(self.move_arg is None)' in facts
+                if from_conf and own_move and not extra:
+                    found = e
+                elif from_conf:
+                    wrong = (e, 'the class-wide alignment is applied %s' % ('with another reference point' if extra else 'on a path where the field may have a position of its own (self.move_arg is None is not known): it replaces the at / shift / aligned the declaration gave'))
+    if wrong is not None:
+        ctx.violation(rule, dy, 'class-wide align: %s' % wrong[0].text()[:80], wrong[1], wrong[0].lineno, clause='a', witness=True)
+    elif found is not None:
+        ctx.holds(rule, dy, "self.move_arg is None and the class has 'align': self.aligned(to=<that option>)", 'class-wide align only for fields without their own move, absolute reference', dy.node.lineno, clause='a')
     else:
-        ctx.violation(rule, dy, 'class-wide align', "expected: if self.move_arg is None and 'align' in bisturi_conf: self.aligned(to=bisturi_conf['align'])", dy.node.lineno, clause='a')
+        ctx.undecided(rule, dy, 'class-wide align', "cannot see the application of the class-wide 'align' option (self.aligned(to=bisturi_conf['align']) for fields without a move of their own)", dy.node.lineno, clause='a')
 
 
 def check_sequence_pads(ctx):
@@ -384,15 +391,22 @@ def check_sequence_pads(ctx):
     ctx.floor('per-element pad sites (count loop, until loop, pack loop)', len(kinds), 3)
     # default of aligned_to
     okd = False
-    for n in ast.walk(comp.node):
-        if isinstance(n, ast.If) and canon(n.test) == '(self.aligned_to is None)':
-            for s in n.body:
-                if isinstance(s, ast.Assign) and canon(s.targets[0]) == 'self.aligned_to' and canon(s.value) == "bisturi_conf.get('align', 1)":
+    other = None
+    for p in repo.walker(inline_depth=1, max_paths=ctx.max_paths).paths(comp.node, cls=sq):
+        if p.raises():
+            continue
+        for e in p.effects:
+            if e.kind == 'store_attr' and canon(e.obj) == 'self' and e.name == 'aligned_to' and '(self.aligned_to is None)' in p.guard_texts():
+                if canon(e.value) == "bisturi_conf.get('align', 1)":
                     okd = True
-    if okd:
+                else:
+                    other = e
+    if other is not None:
+        ctx.violation(rule, comp, 'aligned_to default: %s' % other.text()[:80], "the default element alignment is not the class-wide 'align' option (else 1)", other.lineno, clause='d', witness=True)
+    elif okd:
         ctx.holds(rule, comp, "aligned_to defaults to bisturi_conf.get('align', 1)", 'class-wide align applies to elements; 1 = no padding', comp.node.lineno, clause='d')
     else:
-        ctx.violation(rule, comp, 'aligned_to default', "expected: if self.aligned_to is None: self.aligned_to = bisturi_conf.get('align', 1)", comp.node.lineno, clause='d')
+        ctx.undecided(rule, comp, 'aligned_to default', "cannot see: if self.aligned_to is None: self.aligned_to = bisturi_conf.get('align', 1)", comp.node.lineno, clause='d')
 
 
 def _rename(e, old, new):
